@@ -55,14 +55,14 @@ ANCHORS = [
     "txtorcon.circuit:Circuit.update_path",
 ]
 FLOORS = {
-    "quick": {"evaluations": 500, "oracle_evaluations": 10000, "events_delivered": 10000,
-              "circuits_compared": 20000, "streams_compared": 20000, "attachments_compared": 6000,
-              "snapshot_entries": 1200, "circuit_id_reused": 600, "stream_id_reused": 800,
-              "circuit_died_under_streams": 300, "detached_after_circuit_died": 100,
-              "reattached_to_other_circuit": 100, "hop_not_in_consensus": 1000, "cannibalized": 50,
-              "reach:txtorcon.stream:Stream.update": 6000, "reach:txtorcon.circuit:Circuit.update": 6000,
-              "reach:txtorcon.torstate:TorState.circuit_destroy": 1000,
-              "reach:txtorcon.torstate:TorState._stream_status": 500},
+    "quick": {"evaluations": 350, "oracle_evaluations": 7000, "events_delivered": 7000,
+              "circuits_compared": 14000, "streams_compared": 14000, "attachments_compared": 4200,
+              "snapshot_entries": 800, "circuit_id_reused": 400, "stream_id_reused": 550,
+              "circuit_died_under_streams": 200, "detached_after_circuit_died": 70,
+              "reattached_to_other_circuit": 70, "hop_not_in_consensus": 700, "cannibalized": 35,
+              "reach:txtorcon.stream:Stream.update": 4200, "reach:txtorcon.circuit:Circuit.update": 4200,
+              "reach:txtorcon.torstate:TorState.circuit_destroy": 700,
+              "reach:txtorcon.torstate:TorState._stream_status": 350},
     "thorough": {"evaluations": 10000, "oracle_evaluations": 250000, "events_delivered": 250000,
                  "circuits_compared": 500000, "streams_compared": 500000, "attachments_compared": 150000,
                  "snapshot_entries": 30000, "circuit_died_under_streams": 8000, "circuit_id_reused": 15000,
@@ -353,5 +353,5 @@ def replay(case, rec):
 
 def plan(tier, seed):
     if tier == "quick":
-        return [{"n": 420} for _ in range(14)]
+        return [{"n": 300} for _ in range(14)]
     return [{"n": 4000, "timeout_s": 3000} for _ in range(32)]
